@@ -40,7 +40,9 @@ restate C01_vm_refines_sld_call := vm_refines_sld_call
     (clause bodies, query, called goals): `call(G)`, if-then-else `(C -> T ; E)`, if-then `(C -> T)`
     — executed by the VM through the clauses of bootstrap.pl (`If -> Then ; _ :- If, !, Then.`,
     `_ -> _ ; Else :- !, Else.`, `If -> Then :- If, !, Then.`), by the reference as a branch with a
-    cut local to the construct.  Side condition `CallsOK` as for `call/1`. -/
+    cut local to the construct; `once(G)` (VM: `once(P) :- P, !.`; reference: `(call(G) -> true)`,
+    i.e. with calls `call(call(G))`, `call(true)` the VM does not make).
+    Side condition `CallsOK` as for `call/1`. -/
 restate C01_vm_refines_sld_ctl := vm_refines_sld_ctl
 
 end PrologVerif.C01
